@@ -37,6 +37,33 @@ Proof.
   pose proof (on_time_w _ W evs Wev N S HS SL _ _ _ _ _ _ _ H) as C.
   split; [lia | exact B].
 Qed.
+
+(* The countdown reads the clock as rd s t = up64 (cnt0 + (t - tb)) / 1000: the unwrapped count minus one microsecond per
+   wrap, truncated to milliseconds.  A reading is the ideal one (true count / 1000) unless it falls within w microseconds
+   after a millisecond boundary, w = number of wraps so far: *)
+Lemma up64_ideal a : 0 <= a -> a / 4294967296 <= a mod 1000 -> up64 a / 1000 = a / 1000.
+Proof.
+  intros Ha H. unfold up64.
+  pose proof (Z.div_pos a 4294967296 Ha ltac:(lia)) as Hw.
+  pose proof (Z.div_mod a 1000 ltac:(lia)) as Hd. pose proof (Z.mod_pos_bound a 1000 ltac:(lia)) as Hm.
+  symmetry. apply Z.div_unique with (r := a mod 1000 - a / 4294967296); lia.
+Qed.
+(* two boot values with the same sub-millisecond phase (they differ by k ms): at every true time at which both readings
+   are ideal in that sense, the readings differ by exactly k — so every elapsed-time difference the countdown computes
+   between two such instants is the same in both runs.  The excluded instants are the countdown's analogue of the
+   "stamp sampled as 0" exclusion: a set of measure w / 1000 per wrap. *)
+Theorem countdown_clock_phase : forall s s' t k,
+  tb s' = tb s -> cnt0 s' = cnt0 s + 1000 * k ->
+  let a := cnt0 s + (t - tb s) in let a' := cnt0 s' + (t - tb s') in
+  0 <= a -> 0 <= a' -> a / 4294967296 <= a mod 1000 -> a' / 4294967296 <= a' mod 1000 ->
+  rd s' t = rd s t + k.
+Proof.
+  intros s s' t k Etb Ec a a' Ha Ha' Hi Hi'. unfold rd. fold a a'.
+  rewrite (up64_ideal a Ha Hi), (up64_ideal a' Ha' Hi').
+  unfold a', a. rewrite Etb, Ec.
+  replace (cnt0 s + 1000 * k + (t - tb s)) with (cnt0 s + (t - tb s) + k * 1000) by lia.
+  apply Z.div_add. lia.
+Qed.
 End CD.
 
 (* ================= C12 ================= *)
